@@ -17,6 +17,8 @@ import (
 	"github.com/tink-crypto/tink-go/v2/prf"
 	"github.com/tink-crypto/tink-go/v2/tink"
 	"google.golang.org/protobuf/proto"
+
+	tinkpb "github.com/tink-crypto/tink-go/v2/proto/tink_go_proto"
 )
 
 var (
@@ -64,11 +66,22 @@ func decStream(p tink.StreamingAEAD, ct, aad []byte) ([]byte, error) {
 	return io.ReadAll(r)
 }
 
-func handleHex(h *keyset.Handle) string {
+func handleHex(h *keyset.Handle) string { return handleHexIDs(h, true) }
+
+// handleHexIDs: with ids=false the (randomly chosen) key ids are left out.
+func handleHexIDs(h *keyset.Handle, ids bool) string {
 	if h == nil {
 		return "nil"
 	}
-	b, err := proto.MarshalOptions{Deterministic: true}.Marshal(insecurecleartextkeyset.KeysetMaterial(h))
+	ks := insecurecleartextkeyset.KeysetMaterial(h)
+	if !ids {
+		ks = proto.Clone(ks).(*tinkpb.Keyset)
+		ks.PrimaryKeyId = 0
+		for _, k := range ks.GetKey() {
+			k.KeyId = 0
+		}
+	}
+	b, err := proto.MarshalOptions{Deterministic: true}.Marshal(ks)
 	if err != nil {
 		return "err:" + err.Error()
 	}
@@ -155,7 +168,7 @@ func cross1(class string, p, q any) string {
 	case "kd":
 		P := p.(keyderivation.KeysetDeriver)
 		h, e1 := P.DeriveKeyset(cl(a))
-		return fmt.Sprintf("kd=%s%s", errS(e1), handleHex(h))
+		return fmt.Sprintf("kd=%s%s", errS(e1), handleHexIDs(h, false))
 	case "prehash":
 		P := p.(tink.Prehash)
 		o1, e1 := P.ComputePrehash(cl(m))
@@ -188,6 +201,9 @@ type primSrc struct {
 	q    any // pristine partner, never exposed to mutations
 	lays []layout
 	msgs int // number of message sets (0 = tier default)
+	// very slow primitives (SLH-DSA "s" signing, ~1 s per signature): no cross observation and no
+	// repeated calls
+	minimal bool
 }
 
 type msgSet struct{ pt, ad []byte }
@@ -222,7 +238,10 @@ func (e *engine) primOps(src primSrc, rng *hlib.Rng) {
 			return &inst{
 				call: func(ins [][]byte) ([][]byte, string) { return call(p, ins) },
 				observe: func() string {
-					s := cross(src.class, p, src.q)
+					s := ""
+					if !src.minimal {
+						s = cross(src.class, p, src.q)
+					}
 					if obs != nil {
 						s += "|" + obs()
 					}
@@ -232,7 +251,7 @@ func (e *engine) primOps(src primSrc, rng *hlib.Rng) {
 		}
 	}
 	run := func(op string, det bool, ins []in1, call func(p any, ins [][]byte) ([][]byte, string)) {
-		e.run(spec{api: src.api + "/" + op, extra: src.extra, ins: ins, det: det, mk: mkInst(call), lays: src.lays})
+		e.run(spec{api: src.api + "/" + op, extra: src.extra, ins: ins, det: det, mk: mkInst(call), lays: src.lays, once: src.minimal})
 	}
 	out1 := func(b []byte, err error) ([][]byte, string) {
 		if err != nil {
@@ -355,7 +374,7 @@ func (e *engine) primOps(src primSrc, rng *hlib.Rng) {
 				if err != nil {
 					return nil, "err"
 				}
-				return nil, handleHex(h)
+				return nil, handleHexIDs(h, false)
 			})
 		case "prehash":
 			run("ComputePrehash", true, []in1{{"data", pt}}, func(p any, ins [][]byte) ([][]byte, string) {
